@@ -66,9 +66,12 @@ def generate(rng, tier, shard, nshards):
         if rng.random() < 0.4:
             kw["reference_gravitational_vector"] = np.array([0.0, 0.0, gens.logu(rng, 1.0, 20.0)]) if rng.random() < 0.5 else gens.vec3(rng, 1.0, 20.0)
             kw["reference_magnetic_vector"] = gens.vec3(rng, 1e3, 6e4)
-        if not given and rng.random() < 0.5:        # options of the random-trajectory generator
+        if not given and i % 8 in (0, 2):            # a random trajectory ranging over more than half a turn each way (angles cross +-pi, where q and -q meet)
+            kw["span"] = (float(-rng.uniform(np.pi, 2 * np.pi)), float(rng.uniform(np.pi, 2 * np.pi)))
+            N = max(N, 250)
+        elif not given and rng.random() < 0.5:        # options of the random-trajectory generator
             if rng.random() < 0.5:
-                kw["span"] = (float(-rng.uniform(0.2, 1.2)), float(rng.uniform(0.2, 1.2)))
+                kw["span"] = (float(-gens.logu(rng, 0.2, 8.0)), float(gens.logu(rng, 0.2, 8.0)))       # narrower and wider than the default half turn each way
             if rng.random() < 0.4:
                 kw["yaw"] = float(rng.uniform(-170, 170))
         Q = smooth_quats(rng, N, 1.0 / freq) if given else None
@@ -235,17 +238,19 @@ def judge(ctx, s, p, kw):
         ctx.le("gyr_noise = 0: gyroscopes - true rate is exactly the reported constant bias", np.abs(gyr - true_rate - bias).max() / sc, 1e-12,
                {"bias": bias, "mean_offset": (gyr - true_rate).mean(axis=0)})
         w = (gyr - bias) / unit * (np.pi / 180.0)                    # rad/s
-        x = np.linalg.norm(w, axis=1) * dt
+        # (the bound on the rate and the budget come from the ground-truth attitudes - q and -q being the same attitude - not from the gyroscope data under test)
+        turn = np.r_[0.0, [rq.qang(Q[t - 1], Q[t]) for t in range(1, N)]]
+        x = 2.0 * np.sin(turn / 2.0)
         q = Q[0].copy()
         err = [0.0]
         budget = [1e-9]
         for t in range(1, N):
             q = rq.qnormalize(rq.qmul(q, rq.qexp_pure(w[t] * dt / 2)))
             err.append(rq.qang(q, Q[t]))
-            # exact per-step error of a first-order recovered rate: true angle 2 asin(x/2) vs integrated angle x (errors add at most)
-            budget.append(budget[-1] + 1.01 * (2.0 * np.arcsin(min(x[t] / 2.0, 1.0)) - x[t]) + 1e-12)
+            # exact per-step error of a first-order recovered rate: true angle theta = 2 asin(x/2) vs integrated angle x (errors add at most)
+            budget.append(budget[-1] + 1.01 * (turn[t] - x[t]) + 1e-12)
         ratio = float(np.max(np.array(err) / np.array(budget)))
-        if x.max() <= 0.5:
+        if turn.max() <= 0.5:
             ctx.le("integrating gyroscopes - bias from the first ground-truth attitude reproduces the trajectory (error / budget)", ratio, 1.0,
                    {"worst_err_rad": float(np.max(err)), "budget_end": float(budget[-1]), "max_x": float(x.max()), "N": N})
         else:
